@@ -12,7 +12,10 @@ if not ok:
 vlib.coq_project()
 import json
 claimed = [c["property_id"] for c in json.load(open("MANIFEST.json"))["checks"]]
-ok, log = vlib.make(["Props/%s.vo" % p for p in claimed], timeout=3000)
+import os
+targets = ["Props/%s.vo" % p for p in claimed]
+targets += ["Model/%sCheck.vo" % p for p in claimed if os.path.exists("coq/Model/%sCheck.v" % p)]
+ok, log = vlib.make(targets, timeout=3000)
 print(log[-3000:])
 sys.exit(0 if ok else 1)
 PY
